@@ -44,6 +44,8 @@ def run(ctx, crate):
     rule_is_finished(ctx, crate)
     rule_on_finish_writers(ctx, crate)
     D.rule_finished_draws_forced(ctx, crate)
+    # "visibly finished bars keep their final rendering": the rows of a reaped finished bar are kept by their wrap-aware count
+    D.rule_rows_newtype(ctx, crate)
 
 
 def status_stores(b):
